@@ -269,9 +269,11 @@ def _flush_contract():
             P("C07+C08/each-released-once", f"forall(lambda x: wcnt(x) == old(wcnt(x)) + (1 if {RELEASED} else 0), 'Message')"),
             H("C07/log-grows", "wlen() >= old(wlen())"),
             P("C10/release-leaves-request-markers-alone", "same_dict(message_buffer.internal_messages)"),
+            P("C08/a-failed-write-is-reported", NOFAIL),
             CANARY("C07/canary-nothing-released", "same_dict(SM)"),
         ],
         raises={"TransportError": [
+            H("te/failure-counted", FAILED),
             H("C07/log-grows", "wlen() >= old(wlen())"),
             P("C10/release-leaves-request-markers-alone", "same_dict(message_buffer.internal_messages)"),
             CANARY("C08/canary-failure-loses-nothing", "same_dict(SM)"),
@@ -291,6 +293,7 @@ def flush_loop():
             P("C07/inv-map", "forall(lambda q: implies(q in SM, SM[q] is old(SM[q])), 'key3')"),
             P("C07+C08/inv-count", "forall(lambda x: wcnt(x) == old(wcnt(x)) + (1 if old(key3(x) in SM and SM[key3(x)] is x) and old(key3(x)) in done else 0), 'Message')"),
             H("C07/inv-log-grows", "wlen() >= old(wlen())"),
+            H("C08/inv-no-write-failed-so-far", NOFAIL),
         ],
         modifies=["message_buffer.set_messages[...]"] + GHOST_LOG + ["ghost.wcnt"],
         calls="send",
@@ -342,7 +345,9 @@ LEAVES = {
     PROTO + "protocol_14.IncomingMessageHandler.handle_i_sketch_version": lambda v: leaf_field("i_sketch_version", "sketch_version"),
     PROTO + "protocol_20.IncomingMessageHandler.handle_i_gateway_ready": lambda v: leaf_gateway_ready(),
     PROTO + "protocol_20.IncomingMessageHandler.handle_i_discover_response.__wrapped__": lambda v: leaf_discover_response(),
-    PROTO + "protocol_20.IncomingMessageHandler.handle_i_heartbeat_response.__wrapped__": lambda v: with_flush(leaf_heartbeat20()),
+    # what a heartbeat response means is a matter of the receiver's version (C07, C19), not of where the code lives: under 2.2
+    # it only stores the heartbeat, whether 2.2 overrides the handler or the 2.0 handler tests a class flag
+    PROTO + "protocol_20.IncomingMessageHandler.handle_i_heartbeat_response.__wrapped__": lambda v: leaf_heartbeat22() if v == 4 else with_flush(leaf_heartbeat20()),
     PROTO + "protocol_22.IncomingMessageHandler.handle_i_heartbeat_response.__wrapped__": lambda v: leaf_heartbeat22(),
     PROTO + "protocol_22.IncomingMessageHandler.handle_i_pre_sleep_notification.__wrapped__": lambda v: with_flush(leaf_pre_sleep22()),
 }
@@ -489,7 +494,16 @@ def register(world):
     for vmod in VMODS:
         d = Deriver(world, vmod)
         for cmd, num, f in top_level(world, vmod):
-            d.spec_of(f)
+            try:
+                d.spec_of(f)
+            except Unsupported as e:
+                # a handler without an effect specification (new, or rewritten so that it is no forwarder any more): the dispatcher
+                # above it has no derived contract for this version; the unit is reported as outside the subset (bounded stand-in)
+                if f is None:
+                    raise
+                ct = Contract(f.qualname, params={"cls": "cls", "gateway": GW, "message": MSG, "message_buffer": BUFT})
+                ct.unsupported_reason = str(e)
+                units.append((f"{f.qualname}[{VTAG[vmod]}]", f.qualname, ct, d.cls, ()))
         for q, hs in d.specs.items():
             f = d.funcs[q]
             command = None
